@@ -6,6 +6,9 @@ From RPFT Require Import Base.Sexp Base.PyStr Base.PyStrFacts Base.Result Gen.Ta
      Flow.RowSem Comp.Compile Comp.CompileFacts Comp.CompileIds Comp.Refine.
 Import ListNotations.
 
+Section WithNames.
+Context {GN : GenNames}.
+
 (* ---------------------------------------------------------------- lists *)
 Lemma Forall2_length' {X Y} (P : X -> Y -> Prop) l l' : Forall2 P l l' -> length l = length l'.
 Proof. induction 1; cbn; congruence. Qed.
@@ -153,7 +156,7 @@ Proof.
 Qed.
 
 Lemma plain_set_default d tgt : plain_dec d -> plain_dec (set_default d tgt).
-Proof. auto. Qed.
+Proof. intros (H1 & H2 & H3). split; [exact H1|split; [exact H2|exact H3]]. Qed.
 
 Lemma shape_set_default cls d tgt : shape_ok cls d -> shape_ok cls (set_default d tgt).
 Proof. destruct cls; auto. Qed.
@@ -279,12 +282,67 @@ Lemma new_case_full n ty args cat k n' :
   ck_type k = ty /\ ck_args k = (if nab ty then [] else args) /\ ck_cat k = cat /\ ck_uuid k = fresh n /\ n' = S n.
 Proof. unfold new_case, nab. destruct (negb (memb ty known_tests)); [discriminate|]. intros H. injection H as <- <-. auto. Qed.
 
-Lemma dec_sim_add_case n U d r operand ty value args tgt d' r' n' :
-  dec_sim phi uu d r -> plain_dec d -> SwOK fresh n U r -> dest_sim phi uu tgt d' ->
-  sw_add_choice fresh n r operand (or_default ty s_has_any_word) args [] d' false = Ok (r', n') ->
-  dec_sim phi uu (add_case nab d operand ty value args [] tgt) r' /\ plain_dec (add_case nab d operand ty value args [] tgt).
+(* the names generate_category_name can return *)
+Lemma alt_loop_shape fuel names nm0 nm : alt_loop fuel names nm0 = Ok nm -> exists k, nm = nm0 ++ alts k.
 Proof.
-  intros Hsim Hplain Hok Hd. unfold sw_add_choice, add_case.
+  revert nm0. induction fuel as [|f IH]; intros nm0; cbn; [discriminate|].
+  destruct (memb nm0 names).
+  - intros H. destruct (IH _ H) as (k & ->). exists (S k). cbn [alts]. rewrite app_assoc. reflexivity.
+  - intros H. injection H as <-. exists 0. cbn. rewrite app_nil_r. reflexivity.
+Qed.
+
+Lemma gen_cat_name_shape names args nm : gen_cat_name names args = Ok nm -> exists k, nm = gen_base args ++ alts k.
+Proof. unfold gen_cat_name. apply alt_loop_shape. Qed.
+
+(* looking a category up by an explicit name (a name outside G): the reference finds it among the named categories
+   exactly where the compiler finds it among all of them *)
+Lemma cname_is_name_is x c nm : cat_sim phi uu x c -> ~ gname nm -> cname_is (fst x) nm = name_is nm c.
+Proof.
+  intros [Hn _] Hg. unfold name_is. destruct (fst x) as [t|]; cbn in *.
+  - subst t. reflexivity.
+  - symmetry. apply str_eqb_neq. intros E. apply Hg. rewrite <- E. exact Hn.
+Qed.
+
+Lemma find_named nm (f : ccat -> ccat) cats ccats : forall i,
+  Forall2 (cat_sim phi uu) cats ccats -> ~ gname nm ->
+  match find_cat cats nm i with
+  | Some ci => exists j c, ci = i + j /\ j < length cats /\ nth_error ccats j = Some c
+                           /\ find (name_is nm) ccats = Some c /\ existsb (name_is nm) ccats = true
+                           /\ upd_first (name_is nm) f ccats = RowSem.update ccats j (f c)
+  | None => find (name_is nm) ccats = None /\ existsb (name_is nm) ccats = false
+  end.
+Proof.
+  intros i H Hg. revert i. induction H as [|x c l l' Hxc _ IH]; intros i; cbn [find_cat find existsb upd_first]; [auto|].
+  destruct x as [cn dd]. rewrite <- (cname_is_name_is (cn, dd) c nm Hxc Hg). cbn [fst].
+  destruct (cname_is cn nm).
+  - exists 0, c. cbn. repeat split; try reflexivity; lia.
+  - specialize (IH (S i)). destruct (find_cat l nm (S i)) as [ci|].
+    + destruct IH as (j & c' & -> & Hj & Hn & Hf & He & Hu). exists (S j), c'. cbn. rewrite Hu. repeat split; auto; lia.
+    + exact IH.
+Qed.
+
+Lemma find_app_none {X} (p : X -> bool) l l' : find p l = None -> find p (l ++ l') = find p l'.
+Proof. induction l as [|a r IH]; cbn; [reflexivity|]. destruct (p a); [discriminate|exact IH]. Qed.
+Lemma find_app_some {X} (p : X -> bool) l l' x : find p l = Some x -> find p (l ++ l') = Some x.
+Proof. induction l as [|a r IH]; cbn; [discriminate|]. destruct (p a); [auto|exact IH]. Qed.
+
+Lemma map_uuid_update l i c d' : nth_error l i = Some c -> map cc_uuid (RowSem.update l i (cat_set_dest c d')) = map cc_uuid l.
+Proof.
+  revert i. induction l as [|a r IH]; intros [|i]; cbn; try discriminate.
+  - intros E. injection E as ->. reflexivity.
+  - intros E. rewrite (IH i E). reflexivity.
+Qed.
+
+(* the premise on the name: an unnamed category gets one of the invented names of G, an explicit name is outside G *)
+Definition name_ok (name : str) (args : list (option str)) : Prop :=
+  match name with [] => forall k, gname (gen_base args ++ alts k) | _ => ~ gname name /\ name <> s_NoResponse end.
+
+Lemma dec_sim_add_case n U d r operand ty value args name tgt d' r' n' :
+  dec_sim phi uu d r -> plain_dec d -> SwOK fresh n U r -> dest_sim phi uu tgt d' -> name_ok name args ->
+  sw_add_choice fresh n r operand (or_default ty s_has_any_word) args name d' false = Ok (r', n') ->
+  dec_sim phi uu (add_case nab d operand ty value args name tgt) r' /\ plain_dec (add_case nab d operand ty value args name tgt).
+Proof.
+  intros Hsim Hplain Hok Hd Hname. unfold sw_add_choice, add_case.
   pose proof (dec_sim_set_operand d r operand Hsim) as Hsim1.
   pose proof (SwOK_set_operand fresh n U r operand Hok) as Hok1.
   set (d1 := mkDec (rd_random d) (new_operand (rd_operand d) operand) (rd_wait d) (rd_result d) (rd_cases d) (rd_cats d) (rd_default d) (rd_noresp d)) in *.
@@ -292,7 +350,7 @@ Proof.
   set (r1 := sw_set_operand r operand) in *. clearbody r1. clear Hsim Hok.
   set (ty1 := or_default ty s_has_any_word).
   change (match ty with [] => s_has_any_word | _ :: _ => ty end) with ty1.
-  change (rd_random d1) with (rd_random d). change (rd_cases d1) with (rd_cases d).
+  change (rd_random d1) with (rd_random d). change (rd_cases d1) with (rd_cases d). change (rd_cats d1) with (rd_cats d).
   pose proof (find_Forall2 (case_sim (map cc_uuid (sw_all_cats r1)))
                 (fun k => str_eqb (fst (fst k)) ty1 && ostr_list_eqb (snd (fst k)) args)
                 (fun k => str_eqb (ck_type k) ty1 && ostr_list_eqb (ck_args k) args)
@@ -301,58 +359,125 @@ Proof.
   match type of Hfind with (?A -> _) => assert (Hpq : A) end.
   { intros x y (E1 & E2 & _). rewrite E1, E2. reflexivity. }
   specialize (Hfind Hpq). clear Hpq.
+  destruct Hplain as (Hpc & Hpd & Hpn).
   destruct (find _ (rd_cases d)) as [[[ty0 a0] ci]|] eqn:Ef1; destruct (find _ (sw_cases r1)) as [k|] eqn:Ef2; try contradiction.
   - (* the case exists on both sides: its category is re-targeted *)
     destruct Hfind as (_ & _ & Hnth). cbn in Hnth.
     destruct (existsb _ (sw_all_cats r1)); [|discriminate]. intros H. injection H as <- <-.
     apply find_some in Ef1 as [Hin _].
     assert (Hci : ci < length (rd_cats d)).
-    { unfold plain_dec in Hplain. rewrite Forall_forall in Hplain. apply (Hplain _ Hin). }
+    { rewrite Forall_forall in Hpc. apply (Hpc _ Hin). }
     split; [apply (dec_sim_set_cat phi uu d1 r1 ci (ck_cat k) tgt d' Hsim1 Hci Hnth Hd)|].
-    unfold plain_dec in *. cbn [rd_cases rd_cats d1]. rewrite set_cat_dest_length. exact Hplain.
-  - (* a new case with a new, unnamed category *)
-    cbn [gen_cat_name]. destruct (gen_cat_name _ args) as [nm|e] eqn:Eg; [|discriminate].
-    unfold gen_cat_name in Eg. apply alt_loop_fresh in Eg. rewrite (find_name_none nm _ Eg).
-    destruct (new_cat fresh n nm d') as [[c n1]|e] eqn:Ec; [|discriminate].
-    destruct (new_case fresh n1 ty1 args (cc_uuid c)) as [[k n2]|e] eqn:Ek; [|discriminate].
-    intros H. injection H as <- <-.
-    apply (new_cat_spec fresh fresh_inj) in Ec as (-> & ->). apply new_case_full in Ek as (K1 & K2 & K3 & K4 & ->).
+    split; [|split; [exact Hpd|exact Hpn]]. cbn [rd_cases rd_cats d1]. rewrite set_cat_dest_length. exact Hpc.
+  - (* a new case *)
     destruct Hsim1 as [H1 H2 H3 H4 H5 H6 H7 H8].
-    assert (Hlen := Forall2_length' _ _ _ H5). change (rd_cats d1) with (rd_cats d) in Hlen.
-    assert (Huu : map cc_uuid (sw_all_cats (sw_add_case (sw_add_cat r1 (mkCCat (fresh n) nm (mkCExit (fresh (S n)) d'))) k))
-                  = map cc_uuid (sw_cats r1) ++ fresh n :: map cc_uuid (sw_default r1 :: wait_cats (sw_wait r1))).
-    { unfold sw_add_case, sw_add_cat, sw_all_cats. cbn. rewrite <- app_assoc. rewrite !map_app. reflexivity. }
-    split.
-    + constructor; cbn [rd_random rd_operand rd_wait rd_result rd_cases rd_cats rd_default rd_noresp
-                         sw_operand sw_result sw_wait sw_cases sw_cats sw_default sw_add_case sw_add_cat].
-      * exact H1.
-      * exact H2.
-      * exact H3.
-      * exact H4.
-      * apply Forall2_app_one; [exact H5|]. split; [exact I|exact Hd].
-      * exact H6.
-      * rewrite Huu. apply Forall2_app_one.
-        -- (* the old cases keep their categories *)
-           unfold plain_dec in Hplain. cbn [rd_cases rd_cats d1] in H7.
-           assert (G : forall l l', Forall2 (case_sim (map cc_uuid (sw_all_cats r1))) l l' -> Forall (fun x => snd x < length (rd_cats d)) l ->
-                              Forall2 (case_sim (map cc_uuid (sw_cats r1) ++ fresh n :: map cc_uuid (sw_default r1 :: wait_cats (sw_wait r1)))) l l').
-           { intros l l' F. induction F as [|x y l l' Hxy _ IH]; intros Hall; [constructor|].
-             inversion Hall as [|? ? Hx Hr]; subst. constructor; [|apply IH, Hr].
-             destruct Hxy as (E1 & E2 & E3). split; [exact E1|]. split; [exact E2|].
-             unfold sw_all_cats in E3. rewrite map_app in E3. rewrite nth_error_app1 in E3 by (rewrite map_length; lia).
-             rewrite nth_error_app1 by (rewrite map_length; lia). exact E3. }
-           apply G; [exact H7|exact Hplain].
-        -- split; [cbn; symmetry; exact K1|]. split; [cbn; symmetry; exact K2|]. cbn [snd]. change (rd_cats d1) with (rd_cats d).
-           rewrite nth_error_app2 by (rewrite map_length; lia). rewrite map_length, Hlen, Nat.sub_diag. cbn. rewrite K3. reflexivity.
-      * rewrite Huu. apply NoDup_insert; [unfold sw_all_cats in H8; rewrite map_app in H8; exact H8|].
-        destruct Hok1 as [[Hids _ _] _ _]. intros Hin.
-        assert (Hb : Forall (below fresh n) (map cc_uuid (sw_all_cats r1))).
-        { rewrite Forall_forall in *. intros u Hu. apply in_map_iff in Hu as (c0 & <- & Hc0). apply Hids.
-          apply in_flat_map. exists c0. split; [exact Hc0|left; reflexivity]. }
-        unfold sw_all_cats in Hb. rewrite map_app in Hb. exact (not_in_below fresh fresh_inj n n _ Hb (le_n _) Hin).
-    + unfold plain_dec in *. cbn [rd_cases rd_cats]. change (rd_cats d1) with (rd_cats d). change (rd_cases d1) with (rd_cases d).
-      apply Forall_app. split.
-      * eapply Forall_impl; [|exact Hplain]. intros x Hx. cbn beta in Hx. rewrite app_length. cbn. lia.
-      * constructor; [|constructor]. cbn. rewrite app_length. cbn. lia.
+    assert (Hlen := Forall2_length' _ _ _ H5). change (rd_cats d1) with (rd_cats d) in Hlen, H5.
+    change (rd_default d1) with (rd_default d) in H6. change (rd_cases d1) with (rd_cases d) in H7.
+    (* neither the default nor the No Response category carries an explicit name *)
+    assert (Hrest : forall nm, ~ gname nm -> nm <> s_NoResponse -> find (name_is nm) (sw_default r1 :: wait_cats (sw_wait r1)) = None).
+    { intros nm Hg Hnr. cbn [find]. destruct H6 as [Hn6 _]. rewrite Hpd in Hn6. cbn in Hn6.
+      assert (E6 : name_is nm (sw_default r1) = false).
+      { unfold name_is. apply str_eqb_neq. intros E. apply Hg. rewrite <- E. exact Hn6. }
+      rewrite E6. unfold wait_sim in H4. change (rd_wait d1) with (rd_wait d) in H4. change (rd_noresp d1) with (rd_noresp d) in H4.
+      destruct (sw_wait r1) as [| |t cw]; try reflexivity. cbn [wait_cats find].
+      destruct (rd_wait d); try contradiction. destruct H4 as (_ & x & Ex & [Hnx _]). rewrite Ex in Hpn. rewrite Hpn in Hnx. cbn in Hnx.
+      assert (E7 : name_is nm cw = false) by (unfold name_is; apply str_eqb_neq; intros E; apply Hnr; rewrite <- E, <- Hnx; reflexivity).
+      rewrite E7. reflexivity. }
+    (* the shared end: a NEW category cn/nm with a case *)
+    assert (Hnew : forall cn nm, name_sim cn nm ->
+              match new_cat fresh n nm d' with
+              | Ok (c, n1) => match new_case fresh n1 ty1 args (cc_uuid c) with
+                              | Ok (k, n2) => Ok (sw_add_case (sw_add_cat r1 c) k, n2)
+                              | Err e => Err e end
+              | Err e => Err e end = Ok (r', n') ->
+              dec_sim phi uu (mkDec (rd_random d) (rd_operand d1) (rd_wait d1) (rd_result d1)
+                                    (rd_cases d ++ [(ty1, if nab ty1 then [] else args, length (rd_cats d))]) (rd_cats d ++ [(cn, tgt)])
+                                    (rd_default d1) (rd_noresp d1)) r'
+              /\ plain_dec (mkDec (rd_random d) (rd_operand d1) (rd_wait d1) (rd_result d1)
+                                  (rd_cases d ++ [(ty1, if nab ty1 then [] else args, length (rd_cats d))]) (rd_cats d ++ [(cn, tgt)])
+                                  (rd_default d1) (rd_noresp d1))).
+    { intros cn nm Hcn. destruct (new_cat fresh n nm d') as [[c n1]|e] eqn:Ec; [|discriminate].
+      destruct (new_case fresh n1 ty1 args (cc_uuid c)) as [[k n2]|e] eqn:Ek; [|discriminate].
+      intros H. injection H as <- <-.
+      apply (new_cat_spec fresh fresh_inj) in Ec as (-> & ->). apply new_case_full in Ek as (K1 & K2 & K3 & K4 & ->).
+      assert (Huu : map cc_uuid (sw_all_cats (sw_add_case (sw_add_cat r1 (mkCCat (fresh n) nm (mkCExit (fresh (S n)) d'))) k))
+                    = map cc_uuid (sw_cats r1) ++ fresh n :: map cc_uuid (sw_default r1 :: wait_cats (sw_wait r1))).
+      { unfold sw_add_case, sw_add_cat, sw_all_cats. cbn. rewrite <- app_assoc. rewrite !map_app. reflexivity. }
+      split.
+      + constructor; cbn [rd_random rd_operand rd_wait rd_result rd_cases rd_cats rd_default rd_noresp
+                           sw_operand sw_result sw_wait sw_cases sw_cats sw_default sw_add_case sw_add_cat].
+        * exact H1.
+        * exact H2.
+        * exact H3.
+        * exact H4.
+        * apply Forall2_app_one; [exact H5|]. split; [exact Hcn|exact Hd].
+        * exact H6.
+        * rewrite Huu. apply Forall2_app_one.
+          -- (* the old cases keep their categories *)
+             assert (G0 : forall l l', Forall2 (case_sim (map cc_uuid (sw_all_cats r1))) l l' -> Forall (fun x => snd x < length (rd_cats d)) l ->
+                                Forall2 (case_sim (map cc_uuid (sw_cats r1) ++ fresh n :: map cc_uuid (sw_default r1 :: wait_cats (sw_wait r1)))) l l').
+             { intros l l' F. induction F as [|x y l l' Hxy _ IH]; intros Hall; [constructor|].
+               inversion Hall as [|? ? Hx Hr]; subst. constructor; [|apply IH, Hr].
+               destruct Hxy as (E1 & E2 & E3). split; [exact E1|]. split; [exact E2|].
+               unfold sw_all_cats in E3. rewrite map_app in E3. rewrite nth_error_app1 in E3 by (rewrite map_length; lia).
+               rewrite nth_error_app1 by (rewrite map_length; lia). exact E3. }
+             apply G0; [exact H7|exact Hpc].
+          -- split; [cbn; symmetry; exact K1|]. split; [cbn; symmetry; exact K2|]. cbn [snd]. change (rd_cats d1) with (rd_cats d).
+             rewrite nth_error_app2 by (rewrite map_length; lia). rewrite map_length, Hlen, Nat.sub_diag. cbn. rewrite K3. reflexivity.
+        * rewrite Huu. apply NoDup_insert; [unfold sw_all_cats in H8; rewrite map_app in H8; exact H8|].
+          destruct Hok1 as [[Hids _ _] _ _]. intros Hin.
+          assert (Hb : Forall (below fresh n) (map cc_uuid (sw_all_cats r1))).
+          { rewrite Forall_forall in *. intros u Hu. apply in_map_iff in Hu as (c0 & <- & Hc0). apply Hids.
+            apply in_flat_map. exists c0. split; [exact Hc0|left; reflexivity]. }
+          unfold sw_all_cats in Hb. rewrite map_app in Hb. exact (not_in_below fresh fresh_inj n n _ Hb (le_n _) Hin).
+      + split; [|split; [exact Hpd|exact Hpn]]. cbn [rd_cases rd_cats]. change (rd_cats d1) with (rd_cats d).
+        apply Forall_app. split.
+        * eapply Forall_impl; [|exact Hpc]. intros x Hx. cbn beta in Hx. rewrite app_length. cbn. lia.
+        * constructor; [|constructor]. cbn. rewrite app_length. cbn. lia. }
+    destruct name as [|c0 nm0].
+    + (* unnamed: a new category with an invented name *)
+      cbn [gen_cat_name]. destruct (gen_cat_name _ args) as [nm|e] eqn:Eg; [|discriminate].
+      pose proof (gen_cat_name_shape _ _ _ Eg) as (kk & Enm).
+      unfold gen_cat_name in Eg. apply alt_loop_fresh in Eg. rewrite (find_name_none nm _ Eg).
+      apply (Hnew CWild nm). cbn. rewrite Enm. apply Hname.
+    + (* an explicit name *)
+      destruct Hname as [Hg Hnr]. set (nm := c0 :: nm0) in *.
+      pose proof (find_named nm (fun c => cat_set_dest c d') (rd_cats d) (sw_cats r1) 0 H5 Hg) as Hfn.
+      destruct (find_cat (rd_cats d) nm 0) as [ci|] eqn:Efc.
+      * (* the category of that name exists: it is re-targeted and gets the case *)
+        destruct Hfn as (j & c & -> & Hj & Hnj & Hfj & Hej & Huj). cbn [plus].
+        unfold sw_all_cats at 1. rewrite (find_app_some _ _ _ _ Hfj).
+        destruct (new_case fresh n ty1 args (cc_uuid c)) as [[k n1]|e] eqn:Ek; [|discriminate].
+        intros H. injection H as <- <-. apply new_case_full in Ek as (K1 & K2 & K3 & K4 & ->).
+        assert (Eupd : sw_upd_cat (name_is nm) (fun c => cat_set_dest c d') r1
+                       = mkSwitch (sw_operand r1) (sw_result r1) (sw_wait r1) (sw_cases r1) (RowSem.update (sw_cats r1) j (cat_set_dest c d')) (sw_default r1)).
+        { unfold sw_upd_cat. rewrite Hej, Huj. reflexivity. }
+        rewrite Eupd.
+        assert (Huu : map cc_uuid (sw_all_cats (sw_add_case (mkSwitch (sw_operand r1) (sw_result r1) (sw_wait r1) (sw_cases r1)
+                                                                       (RowSem.update (sw_cats r1) j (cat_set_dest c d')) (sw_default r1)) k))
+                      = map cc_uuid (sw_all_cats r1)).
+        { unfold sw_add_case, sw_all_cats. cbn. rewrite !map_app. rewrite (map_uuid_update _ _ _ _ Hnj). reflexivity. }
+        destruct (nth_error (rd_cats d) j) as [[cnj dj]|] eqn:Ej; [|apply nth_error_None in Ej; lia].
+        destruct (Forall2_nth _ _ _ _ _ H5 Ej) as (c' & Ec' & Hc'). rewrite Hnj in Ec'. injection Ec' as <-.
+        split.
+        -- constructor; cbn [rd_random rd_operand rd_wait rd_result rd_cases rd_cats rd_default rd_noresp
+                               sw_operand sw_result sw_wait sw_cases sw_cats sw_default sw_add_case].
+           ++ exact H1.
+           ++ exact H2.
+           ++ exact H3.
+           ++ exact H4.
+           ++ unfold set_cat_dest. rewrite Ej. apply Forall2_update; [exact H5|]. destruct Hc' as [Hn' _]. split; [exact Hn'|exact Hd].
+           ++ exact H6.
+           ++ rewrite Huu. apply Forall2_app_one; [exact H7|].
+              split; [cbn; symmetry; exact K1|]. split; [cbn; symmetry; exact K2|]. cbn [snd].
+              unfold sw_all_cats. rewrite map_app. rewrite nth_error_app1 by (rewrite map_length; lia).
+              rewrite nth_error_map, Hnj. cbn. rewrite K3. reflexivity.
+           ++ rewrite Huu. exact H8.
+        -- split; [|split; [exact Hpd|exact Hpn]]. cbn [rd_cases rd_cats]. rewrite set_cat_dest_length.
+           apply Forall_app. split; [exact Hpc|]. constructor; [|constructor]. cbn. exact Hj.
+      * (* a new category of that name *)
+        destruct Hfn as [Hfn _]. unfold sw_all_cats at 1. rewrite (find_app_none _ _ _ Hfn), (Hrest nm Hg Hnr).
+        apply (Hnew (CFixed nm) nm). reflexivity.
 Qed.
 End AddCase.
+End WithNames.
